@@ -155,7 +155,10 @@ def handle : List String → String
           let lp := tt'.livePaths
           let pv := lp.map fun e => let r := tt'.previewEntry fl e.1 e.2; showEntry e.2 r.kind r.data r.exec r.versioned
           let fe := lp.map fun e => let r := tt'.finalEntry e.1; showEntry e.2 r.kind (some r.data) r.exec r.versioned
-          let diag := s!"wf={showBool tt'.wf},bwf={showBool tt'.baseWf},rev={plusList tt'.reversioned},dang={plusList tt'.dangling},vbn={plusList tt'.versionedBelowNonDir},ghyp={showBool tt'.gitHyps},bhyp={showBool tt'.bzrHyps},rhyp={showBool tt'.rootHyps},fuel={showBool (tt.fuelOk && tt'.fuelOk)}"
+          let flt := match tt.resolveAndApplyFaulted fl with
+            | .applied _ _ => "ok"
+            | .raised e d => s!"E:{e.show}:{if diskSame d tt.baseDisk then "same" else "changed"}"
+          let diag := s!"wf={showBool tt'.wf},bwf={showBool tt'.baseWf},rev={plusList tt'.reversioned},dang={plusList tt'.dangling},vbn={plusList tt'.versionedBelowNonDir},ghyp={showBool tt'.gitHyps},bhyp={showBool tt'.bzrHyps},rhyp={showBool tt'.rootHyps},fuel={showBool (tt.fuelOk && tt'.fuelOk)},flt={flt}"
           -- the outcome of the whole run is taken from `resolveAndApply` on the *original* transform
           let (ap, out) := match tt.resolveAndApply fl with
             | .applied tta _ => (semi (appliedDump fl tta), "ok")
